@@ -34,6 +34,7 @@ type SFPacket struct {
 	ICMPType uint8  `json:"icmp_type"`
 	ICMPCode uint8  `json:"icmp_code"`
 	Payload  []byte `json:"payload"` // after the L4 header (for ICMP: after the first 4 octets, >= 1 octet)
+	IHL      uint8  `json:"ihl,omitempty"` // hostile knob: IPv4 header length in words (0 = 5); options are zero octets
 }
 
 // Bytes renders the sampled header.
@@ -60,7 +61,11 @@ func (p *SFPacket) Bytes() []byte {
 		b = append(b, p.Src...)
 		b = append(b, p.Dst...)
 	} else {
-		b = append(b, 0x45, p.TOS)
+		ihl := byte(5)
+		if p.IHL != 0 {
+			ihl = p.IHL & 0xf
+		}
+		b = append(b, 0x40|ihl, p.TOS)
 		b = put16(b, p.TotalLen)
 		b = put16(b, p.ID)
 		b = put16(b, uint16(p.Flags&7)<<13|p.FragOff&0x1fff)
@@ -68,6 +73,9 @@ func (p *SFPacket) Bytes() []byte {
 		b = put16(b, p.Cksum)
 		b = append(b, p.Src...)
 		b = append(b, p.Dst...)
+		if p.IHL > 5 {
+			b = append(b, make([]byte, int(p.IHL-5)*4)...)
+		}
 	}
 	switch p.L4 {
 	case 6:
